@@ -83,7 +83,7 @@ def case(name, lineup, nb, E, jobs):
                 break
         return bad, info
 
-    return Case(name, body, replay, time_budget=400)
+    return Case(name, body, replay, time_budget=400, witness_paths=1, split=3 if any(k in ("rf", "xgb", "gp", "bestbatch") for k, _ in lineup) else 0)
 
 
 def case_rl(name, lineup, nb, jobs, agent_first=False):
@@ -119,7 +119,7 @@ def case_rl(name, lineup, nb, jobs, agent_first=False):
                 break
         return bad, info
 
-    return Case(name, body, replay, time_budget=900, split=4)
+    return Case(name, body, replay, time_budget=900, witness_paths=1, split=4)
 
 
 def replay_rl(lineup, nb, jobs, S, eps):
@@ -214,11 +214,11 @@ def cases(tier, seed):
             case("pso-pso", [("pso", 1), ("pso", 1)], 5, 1, (1, 2)),
             case("cors-cors-halton", [("halton", 2), ("cors", 1), ("cors", 1)], 4, 1, (1, 2)),
             case("rseq-rseq", [("rseq", 1), ("rseq", 2)], 5, 2, (2, 4)),
-            case("xgb-rf-gp", [("uniform", 2), ("xgb", 1), ("rf", 1)], 4, 1, (1, 2)),
+            case("xgb-rf", [("uniform", 2), ("xgb", 1), ("rf", 1)], 3, 1, (1, 2)),
             case("halton-pso-rseq", [("halton", 1), ("pso", 1), ("rseq", 1)], 5, 1, (1, 4)),
             case("uniform-bestbatch-bestbatch", [("uniform", 2), ("bestbatch", 1), ("bestbatch", 1)], 4, 1, (1, 2)),
-            case("halton-xgb-E2", [("halton", 2), ("xgb", 1)], 4, 2, (1, 2)),
-            case_rl("rl-rseq-uniform", [("rseq", 1), ("uniform", 1)], 3, (1, 4)),
+            case("halton-xgb-E2", [("halton", 2), ("xgb", 1)], 3, 2, (1, 2)),
+            case_rl("rl-rseq-uniform", [("rseq", 1), ("uniform", 1)], 2, (1, 4)),
             case_rl("rl-halton-rseq", [("halton", 1), ("rseq", 1)], 3, (1, 4)),
             case_rl("rl-uniform-halton-agentfirst", [("uniform", 1), ("halton", 1)], 3, (1, 2), agent_first=True),
             case_rl("rl-uniform-halton-4", [("uniform", 1), ("halton", 1)], 4, (2, 4)),
